@@ -13,6 +13,7 @@ import (
 	"sort"
 	"strconv"
 	"strings"
+	"time"
 
 	"gorm.io/gorm/schema"
 )
@@ -254,4 +255,115 @@ func (l SerList) Value(ctx context.Context, field *schema.Field, dst reflect.Val
 var (
 	_ schema.SerializerInterface = (*SerDoc)(nil)
 	_ schema.SerializerInterface = (*SerList)(nil)
+)
+
+// ---- further scanner/valuer shapes and named basic types ---------------------------------------------
+
+// StrList is a slice-backed scanner/valuer: nil is NULL, otherwise "S" + JSON array.
+type StrList []string
+
+// GormDataType gives the column type (a nil list's Value is NULL, from which gorm cannot derive one).
+func (StrList) GormDataType() string { return "string" }
+
+func (l StrList) Value() (driver.Value, error) {
+	if l == nil {
+		return nil, nil
+	}
+	b, err := json.Marshal([]string(l))
+	return "S" + string(b), err
+}
+
+func (l *StrList) Scan(src interface{}) error {
+	var s string
+	switch v := src.(type) {
+	case string:
+		s = v
+	case []byte:
+		s = string(v)
+	case nil:
+		*l = nil
+		return nil
+	default:
+		return fmt.Errorf("schemagen.StrList: cannot scan %T", src)
+	}
+	if !strings.HasPrefix(s, "S") {
+		return fmt.Errorf("schemagen.StrList: stored value %q lacks the S prefix (Value was bypassed)", s)
+	}
+	var out []string
+	if err := json.Unmarshal([]byte(s[1:]), &out); err != nil {
+		return err
+	}
+	*l = out
+	return nil
+}
+
+// UUID is a byte-array-backed scanner/valuer stored as 32 hex digits.
+type UUID [16]byte
+
+func (u UUID) Value() (driver.Value, error) { return fmt.Sprintf("%x", u[:]), nil }
+
+func (u *UUID) Scan(src interface{}) error {
+	var s string
+	switch v := src.(type) {
+	case string:
+		s = v
+	case []byte:
+		s = string(v)
+	default:
+		return fmt.Errorf("schemagen.UUID: cannot scan %T", src)
+	}
+	if len(s) != 32 {
+		return fmt.Errorf("schemagen.UUID: stored value %q is not 32 hex digits (Value was bypassed)", s)
+	}
+	for i := 0; i < 16; i++ {
+		b, err := strconv.ParseUint(s[2*i:2*i+2], 16, 8)
+		if err != nil {
+			return fmt.Errorf("schemagen.UUID: %q: %v", s, err)
+		}
+		u[i] = byte(b)
+	}
+	return nil
+}
+
+// Level is an integer-backed scanner/valuer stored as value + 1000.
+type Level int
+
+func (l Level) Value() (driver.Value, error) { return int64(l) + 1000, nil }
+
+func (l *Level) Scan(src interface{}) error {
+	switch v := src.(type) {
+	case int64:
+		*l = Level(v - 1000)
+		return nil
+	case nil:
+		*l = 0
+		return nil
+	}
+	return fmt.Errorf("schemagen.Level: cannot scan %T", src)
+}
+
+// Stamp is a scanner/valuer convertible to time.Time (stored as the time itself).
+type Stamp time.Time
+
+func (s Stamp) Value() (driver.Value, error) { return time.Time(s), nil }
+
+func (s *Stamp) Scan(src interface{}) error {
+	switch v := src.(type) {
+	case time.Time:
+		*s = Stamp(v)
+		return nil
+	case nil:
+		*s = Stamp{}
+		return nil
+	}
+	return fmt.Errorf("schemagen.Stamp: cannot scan %T", src)
+}
+
+// Named basic types without Scan/Value methods.
+type (
+	Status string
+	Count  int64
+	Raw    []byte
+	Flag   bool
+	Ratio  float64
 )
